@@ -298,6 +298,31 @@ def _state_loops(res, u, elem_size, dptr):
         if cl["bound"] != "mjNSTATE":
             problems.append(f"loop bound is `{cl['bound']}`, not mjNSTATE")
         lbody = cl.get("body") or cir.kids(lp)[-1]
+        # outside the element loop the writers touch nothing of mjData: whatever is written there is written whatever the
+        # signature says ("leaves all others untouched")
+        if fname in ("mj_setState", "mj_copyState"):
+            from .. import modref as _mr, paths as _paths
+            inside = {id(y) for y in cir.walk(lp)}
+            wpar = [p_.get("n") for p_ in cir.params(fn) if "mjData" in (p_.get("t") or "") and "const" not in (p_.get("t") or "")]
+            for x in cir.walk(body):
+                if id(x) in inside or not wpar:
+                    continue
+                k_ = x.get("k")
+                why = None
+                if cir.is_call(x) and cir.callee(x) not in STATE_PRIMS and not _paths.is_noreturn_call(x, set()):
+                    if any(cir.text(a_) == wpar[0] or cir.text(a_).startswith(wpar[0] + "->") for a_ in cir.args(x)):
+                        why = f"`{cir.text(x)[:70]}` receives the destination mjData"
+                elif (k_ == "BinaryOperator" and x.get("op") == "=") or k_ == "CompoundAssignOperator" or \
+                        (k_ == "UnaryOperator" and x.get("op") in ("++", "--")):
+                    rf = _mr.root_field(cir.kids(x)[0])
+                    if rf is not None and rf[0] == "mjData" and cir.text(cir.kids(x)[0]).startswith(wpar[0] + "->"):
+                        why = f"`{cir.text(x)[:70]}` stores into the destination mjData"
+                elif k_ == "VarDecl" and "*" in (x.get("t") or "") and "const" not in (x.get("t") or "") and _init_of(x) is not None \
+                        and cir.text(_init_of(x)).startswith(wpar[0] + "->"):
+                    why = f"`{x.get('n')}` aliases `{cir.text(_init_of(x))[:50]}` for writing"
+                if why:
+                    problems.append(f"{why} outside the element loop: it is written whatever the signature selects")
+                    break
         # the element bit must be taken before the counter moves (while-form)
         order = {id(x): i for i, x in enumerate(cir.walk(lbody))}
         if cl.get("inc_node") is not None and id(cl["inc_node"]) in order and order[id(cl["inc_node"])] < order.get(id(edecl), -1):
